@@ -27,7 +27,8 @@ Part 2: the functional layer (Model/C04Key, C04Classify, C04Sort).
                                   range is sorted with exact LCPs
   * `sortAll_correct`, `sortAll_answer_unique`, `sortM_correct`   the end-to-end theorem: every parameter set and
                                   chooser, sorted permutation, exact LCPs, no out-of-bounds read
-  * OPEN: termination of the recursion (`sortAll_terminates_statement`)
+  * `sortAll_terminates`, `sortM_terminates`   the recursion terminates: fuel 3·(characters + strings) + 3
+                                  suffices, the model is total
 -/
 import TlxVerif.Proofs.C04ProtoInv
 import TlxVerif.Proofs.C04Term
@@ -586,7 +587,8 @@ theorem sample_sort_step_lemma (c : Classifier) (useCalc : Bool) (p : Str) (rs :
 big/small decision of `enqueue` (any function, hence every `sequential_threshold()` incl.
 `enable_rest_size`), the samples drawn by every step and the pivots of every MKQS step.  `EnvOk`:
 thresholds ≥ 1, `1 ≤ TreeBits ≤ 31`, an empty range is never sent into a sample step, sample indices
-are `< n`.  For NUL-free input strings a run of the model that does not exhaust its fuel returns a
+are `< n`.  For NUL-free input strings a run of the model that does not exhaust its fuel (`sortAll_terminates`: none does
+with fuel ≥ `fuelFor strs`) returns a
 permutation of the strings, sorted in unsigned-byte lexicographic order, with an LCP array of the same
 length whose entries `1..` are the exact LCPs of neighbours; and no run ever reads outside a string,
 the sample array, the splitter tree or the LCP array (`Err.oob`) or hits an internal error.
@@ -597,7 +599,7 @@ theorem sortAll_correct (env : Env) (henv : EnvOk env) (fuel : Nat) (strs : List
       sortAll env fuel strs ≠ .error .oob ∧ sortAll env fuel strs ≠ .error .internal := by
   have h := sortAll_safe henv fuel strs hnf
   refine ⟨fun r hr => h.of_ok hr, ?_, ?_⟩ <;>
-  · intro e; rw [e] at h; cases h
+  · intro e; rw [e] at h; exact absurd h.2 (by decide)
 
 /-- **The answer is independent of the parameter set, the samples, the pivots and every big/small
 decision** (and hence of how the work is split into jobs). -/
@@ -610,8 +612,8 @@ theorem sortAll_answer_unique {env1 env2 : Env} (h1 : EnvOk env1) (h2 : EnvOk en
 /-- the recursion itself: every call (any mode, any range with a common prefix) is correct -/
 theorem sortM_correct {env : Env} (henv : EnvOk env) (fuel : Nat) (mode : Mode) (strs : List Str) (p : Str)
     (hr : RangeOk p strs) (hpre : ModePre mode strs) :
-    Safe (sortM env fuel mode strs p.length) (SortedLcp strs) :=
-  sortM_recOk henv fuel mode strs p hr hpre
+    Safe true (sortM env fuel mode strs p.length) (SortedLcp strs) :=
+  sortM_recOk henv fuel mode strs p hr hpre (fun e => by cases e)
 
 /-- non-vacuity: a small tuning satisfies `EnvOk`, and the model sorts with it -/
 def demoEnv : Env :=
@@ -634,12 +636,22 @@ theorem demoEnv_ok : EnvOk demoEnv := by
 example : (sortAll demoEnv 5 [[98, 97], [97]]).toOption.map (fun r => (r.out, r.lcp)) =
     some ([[97], [98, 97]], [0, 0]) := by decide +kernel
 
-/-- what is still missing for totality: enough fuel always exists (the recursion terminates) -/
-def sortAll_terminates_statement : Prop :=
-  ∀ (env : Env), EnvOk env → ∀ strs : List Str, (∀ s ∈ strs, nulFree s) →
-    ∃ fuel, sortAll env fuel strs ≠ .error .fuel
--- OPEN: sortAll_terminates_statement — every recursive call works on fewer strings or at a larger depth
---   (measure: number of strings plus remaining characters), not yet proved; the theorems above hold for
---   every fuel value, the driver uses 4·(n + longest string) + 100.
+/-- **The recursion terminates and the model is total.**  With fuel `fuelFor strs` = 3·(characters +
+strings) + 3 or more, `sortAll` returns an answer (no fuel error, hence by `sortAll_correct` no error
+at all) and the answer is the sorted permutation with exact LCPs — for every parameter set, sample,
+pivot and big/small decision.  Measure of a call: `mu mode strs depth` = 3·(characters and terminators
+of the range behind the common prefix) + position of the mode in `enqueue → step → MKQSStep`; every
+sub-range of a step either misses the string a splitter / the pivot was read from, or lies 8 characters
+deeper in all its strings.  Consequence for the protocol layer: the job tree of a run is finite. -/
+theorem sortAll_terminates (env : Env) (henv : EnvOk env) (strs : List Str) (hnf : ∀ s ∈ strs, nulFree s)
+    {fuel : Nat} (hfuel : fuelFor strs ≤ fuel) :
+    ∃ r, sortAll env fuel strs = .ok r ∧ SortedLcp strs r :=
+  sortAll_total henv strs hnf hfuel
+
+/-- the same for every call of the recursion: fuel `mu mode strs depth` suffices -/
+theorem sortM_terminates {env : Env} (henv : EnvOk env) {fuel : Nat} (mode : Mode) (strs : List Str) (p : Str)
+    (hr : RangeOk p strs) (hpre : ModePre mode strs) (hfuel : mu mode strs p.length ≤ fuel) :
+    ∃ r, sortM env fuel mode strs p.length = .ok r ∧ SortedLcp strs r :=
+  Safe.total (sortM_recOk (af := false) henv fuel mode strs p hr hpre (fun _ => by omega))
 
 end TlxVerif.C04
